@@ -211,7 +211,7 @@ type jop struct {
 }
 
 func propC10(run *Run, n int) {
-	run.rule = "p = RenderPatch(a.Diff(b)) rendered hunk by hunk, and subset-preserving variations (changed values in matching test/remove pairs, indices shifted consistently across a hunk, dropped hunks, dropped context tests, '-' append) x targets (a, b, perturbations); non-trivial = jd reads and applies the patch; distinct = distinct (patch text, target)"
+	run.rule = "p = RenderPatch(a.Diff(b)) rendered hunk by hunk, and subset-preserving variations (changed values in matching test/remove pairs, indices shifted consistently across a hunk, dropped hunks, dropped context tests, '-' append) and respell-token (a reference token respelled outside the RFC 6901 grammar: index N as 0N, +N, -N, 00N, 00; '-' as -1; a key with an invalid ~ escape; a member renamed — in patch and documents — to a number-like name 007, 01, -1, +1, -0 so that it reaches an object) x targets (a, b, perturbations); non-trivial = jd reads and applies the patch; distinct = distinct (patch text, target)"
 	r := NewRng(run.Seed)
 	for i := 0; i < n; i++ {
 		cfg := DefaultCfg()
@@ -306,7 +306,248 @@ func propC10(run *Run, n int) {
 			}
 			addC10Case(run, kind, opsText(g2), t, a, b)
 		}
+		// respell-token (D30): the SPELLING of a reference token of the rendered patch is changed. RFC 6901
+		// section 4: an array index is `0` or digits without a leading zero, `-` is the position after the last
+		// element; every other token is a member name and an error on an array. Section 3: `~` must be followed
+		// by `0` or `1`. jd must not apply a patch with such a token where RFC 6902 evaluation fails.
+		if len(flatOps(groups)) > 0 && r.Chance(2, 3) {
+			g3, a3, b3, kind := respellToken(r, groups, a, b)
+			t := a3.Clone()
+			switch r.Intn(5) {
+			case 0:
+				t = b3.Clone()
+			case 1:
+				t = perturb(r, cfg, a3, b3)
+			}
+			addC10Case(run, kind, opsText(g3), t, a3, b3)
+		}
 	}
+}
+
+// numberLikeNames are member names that strconv.Atoi accepts and that are not RFC 6901 array indices
+var numberLikeNames = []string{"007", "01", "-1", "+1", "-0", "00", "+0"}
+
+func ptrEscapeTok(k string) string {
+	return strings.ReplaceAll(strings.ReplaceAll(k, "~", "~0"), "/", "~1")
+}
+
+// renameKey renames the member `from` to `to` in every object of v that has `from` and not `to`.
+func renameKey(v *Val, from, to string) *Val {
+	c := *v
+	if v.A != nil {
+		c.A = make([]*Val, len(v.A))
+		for i, e := range v.A {
+			c.A[i] = renameKey(e, from, to)
+		}
+	}
+	if v.O != nil {
+		c.O = map[string]*Val{}
+		_, clash := v.O[to]
+		for k, e := range v.O {
+			if k == from && !clash {
+				k = to
+			}
+			c.O[k] = renameKey(e, from, to)
+		}
+	}
+	return &c
+}
+
+func hasKey(v *Val, k string) bool {
+	if v.O != nil {
+		if _, ok := v.O[k]; ok {
+			return true
+		}
+	}
+	for _, e := range v.A {
+		if hasKey(e, k) {
+			return true
+		}
+	}
+	for _, e := range v.O {
+		if hasKey(e, k) {
+			return true
+		}
+	}
+	return false
+}
+
+// respellToken rewrites reference tokens of the ops: an index N becomes 0N, +N, -N or 00…N; `-` becomes
+// -1; a key gets an invalid escape (~2 inserted, or a trailing ~); or a member name is replaced, in the patch
+// AND in the documents, by a number-like name (007, 01, -1, +1, …) so that such a token reaches an OBJECT
+// that holds the member. The choice is applied to one op, or consistently to all ops of the patch that
+// share the token at that position (so that test/remove pairs and context tests stay aligned).
+func respellToken(r *Rng, groups [][]jop, a, b *Val) ([][]jop, *Val, *Val, string) {
+	g := make([][]jop, len(groups))
+	for i := range groups {
+		g[i] = append([]jop{}, groups[i]...)
+	}
+	all := flatOps(g)
+	if len(all) == 0 {
+		return g, a, b, "respell-token:none"
+	}
+	if r.Chance(1, 4) {
+		// number-like member name reaching an object target
+		keys := []string{}
+		seen := map[string]bool{}
+		for _, o := range all {
+			if o.Path == "" {
+				continue
+			}
+			for _, tok := range strings.Split(o.Path[1:], "/") {
+				k := strings.ReplaceAll(strings.ReplaceAll(tok, "~1", "/"), "~0", "~")
+				if !isIndexTok(tok) && tok != "-" && !seen[k] && (hasKey(a, k) || hasKey(b, k)) {
+					seen[k] = true
+					keys = append(keys, k)
+				}
+			}
+		}
+		if len(keys) == 0 {
+			// no member on the way: add the patch's root below a number-like member of a new object
+			name := numberLikeNames[r.Intn(len(numberLikeNames))]
+			for i := range g {
+				for j := range g[i] {
+					g[i][j].Path = "/" + name + g[i][j].Path
+				}
+			}
+			return g, VObj(name, a.Clone()), VObj(name, b.Clone()), "respell-token:numberlike-member-wrapped"
+		}
+		from := keys[r.Intn(len(keys))]
+		to := numberLikeNames[r.Intn(len(numberLikeNames))]
+		if hasKey(a, to) || hasKey(b, to) {
+			return g, a, b, "respell-token:none"
+		}
+		esc := ptrEscapeTok(from)
+		for i := range g {
+			for j := range g[i] {
+				if g[i][j].Path == "" {
+					continue
+				}
+				toks := strings.Split(g[i][j].Path[1:], "/")
+				for k := range toks {
+					if toks[k] == esc {
+						toks[k] = to
+					}
+				}
+				g[i][j].Path = "/" + strings.Join(toks, "/")
+			}
+		}
+		return g, renameKey(a, from, to), renameKey(b, from, to), "respell-token:numberlike-member-renamed"
+	}
+	if r.Chance(1, 6) {
+		// `-` respelled as -1: a hunk that only adds at an array index becomes a run of "appends" at -1 (in
+		// document order, as the dash-append variation writes them)
+		start := r.Intn(len(g))
+		for k := 0; k < len(g); k++ {
+			gi := (start + k) % len(g)
+			allAdd := len(g[gi]) > 0
+			for _, o := range g[gi] {
+				if o.Op != "add" {
+					allAdd = false
+				}
+			}
+			if !allAdd {
+				continue
+			}
+			i := strings.LastIndex(g[gi][0].Path, "/")
+			if i < 0 || !isIndexTok(g[gi][0].Path[i+1:]) {
+				continue
+			}
+			for j := range g[gi] {
+				g[gi][j].Path = g[gi][j].Path[:i+1] + "-1"
+			}
+			for x, y := 0, len(g[gi])-1; x < y; x, y = x+1, y-1 {
+				g[gi][x], g[gi][y] = g[gi][y], g[gi][x]
+			}
+			return g, a, b, "respell-token:dash-as-minus-one"
+		}
+	}
+	// choose an op and a token position
+	cand := []int{}
+	for i, o := range all {
+		if o.Path != "" {
+			cand = append(cand, i)
+		}
+	}
+	if len(cand) == 0 {
+		return g, a, b, "respell-token:none"
+	}
+	o := all[cand[r.Intn(len(cand))]]
+	toks := strings.Split(o.Path[1:], "/")
+	pos := len(toks) - 1
+	if r.Chance(1, 3) {
+		pos = r.Intn(len(toks))
+	}
+	tok := toks[pos]
+	var repl, kind string
+	switch {
+	case tok == "-":
+		repl, kind = "-1", "dash-as-minus-one"
+	case isIndexTok(tok):
+		switch r.Intn(5) {
+		case 0:
+			repl, kind = "0"+tok, "index-leading-zero"
+		case 1:
+			repl, kind = "+"+tok, "index-plus-sign"
+		case 2:
+			repl, kind = "-"+tok, "index-minus-sign"
+		case 3:
+			repl, kind = "00"+tok, "index-two-leading-zeros"
+		default:
+			if tok == "0" {
+				repl, kind = "00", "index-double-zero"
+			} else {
+				repl, kind = "0"+tok, "index-leading-zero"
+			}
+		}
+	default:
+		switch r.Intn(3) {
+		case 0:
+			repl, kind = tok+"~2", "key-invalid-escape"
+		case 1:
+			repl, kind = tok+"~", "key-trailing-tilde"
+		default:
+			repl, kind = "~"+tok, "key-leading-tilde"
+			if strings.HasPrefix(tok, "0") || strings.HasPrefix(tok, "1") {
+				repl = tok + "~x"
+			}
+		}
+	}
+	prefix := "/" + strings.Join(toks[:pos], "/")
+	if pos == 0 {
+		prefix = ""
+	}
+	consistent := r.Chance(2, 3)
+	done := false
+	for i := range g {
+		for j := range g[i] {
+			p := g[i][j].Path
+			if p == "" {
+				continue
+			}
+			ts := strings.Split(p[1:], "/")
+			if len(ts) <= pos || ts[pos] != tok {
+				continue
+			}
+			pre := "/" + strings.Join(ts[:pos], "/")
+			if pos == 0 {
+				pre = ""
+			}
+			if pre != prefix {
+				continue
+			}
+			if !consistent && (done || p != o.Path || g[i][j].Op != o.Op) {
+				continue
+			}
+			ts[pos] = repl
+			g[i][j].Path = "/" + strings.Join(ts, "/")
+			done = true
+		}
+	}
+	if consistent {
+		kind += "+all"
+	}
+	return g, a, b, "respell-token:" + kind
 }
 
 func flatOps(groups [][]jop) []jop {
